@@ -188,6 +188,33 @@ func runScenario(sc *scenario, seed uint64, res *hx.Result, em *emitter, allPath
 		}
 	}
 
+	// --- listed finding: add_contact_urn with a candidate one twin holds is an equality test on the hidden path ---
+	probeDivergent := false
+	if sc.probeHeldByOneSide() {
+		for pol := 0; pol < 2 && !probeDivergent; pol++ {
+			a, b := runs[pol][0], runs[pol][1]
+			for i := 0; i < len(a.Obs) && i < len(b.Obs) && !probeDivergent; i++ {
+				if !a.Obs[i].Redact || len(a.Obs[i].Snaps) == 0 || len(b.Obs[i].Snaps) == 0 {
+					continue
+				}
+				ca, cb := a.Obs[i].Snaps[0].Contact, b.Obs[i].Snaps[0].Contact
+				if ca != nil && cb != nil && len(ca.URNs) != len(cb.URNs) {
+					probeDivergent = true
+					cnt := func(o *observation) string {
+						if n := o.Ctx.get("contact", "urns"); n != nil {
+							return fmt.Sprint(len(n.Kids))
+						}
+						return "?"
+					}
+					res.Fail("leak:add_contact_urn:equality-with-held-urn", sc, fmt.Sprintf(
+						"%s: under the policy add_contact_urn(%s) leaves twin A with %d URNs and twin B with %d: @(count(contact.urns)) is %s vs %s",
+						a.Obs[i].Point, urns.URN(sc.Contact.Slots[sc.AddURNProbe-1].A).Identity(), len(ca.URNs), len(cb.URNs), cnt(a.Obs[i]), cnt(b.Obs[i])))
+					res.Dist("scenario=add-urn-probe-divergent")
+				}
+			}
+		}
+	}
+
 	// --- the policy in force is the one of the environment the caller supplied last ---
 	checkInForce := func(o *observation) {
 		res.OracleChecks++
@@ -386,6 +413,9 @@ func runScenario(sc *scenario, seed uint64, res *hx.Result, em *emitter, allPath
 			checkInForce(oa)
 			checkInForce(ob)
 			if oa.Redact {
+				if probeDivergent {
+					continue // the twins' URN lists have different lengths from the probe on (listed finding)
+				}
 				checkHidden(oa, ob, i)
 			} else {
 				checkVisible(oa, ob, i)
@@ -479,6 +509,7 @@ func main() {
 	res.Notes = append(res.Notes, fmt.Sprintf("%d scenarios, %d context nodes compared between twins, %d template evaluations compared", len(scs), totalNodes, totalTpl))
 
 	runQueries(o, r.Fork("queries"), res, em)
+	runURNOps(o, r.Fork("urnops"), res, em)
 
 	em.flush()
 	res.Write(o)
